@@ -23,6 +23,8 @@ def in_scope(prop: str, short: str, cls: str, member: str) -> bool:
             return True
         if prop == "C16" and short in ("matrix/cubemeasure.py", "cube.py") and ("unconditional" in tag or "counts_with_missings" in tag):
             return True
+        if prop == "C11" and "scale" in tag:
+            return False  # the scale-mean standard deviation / error are C14's
         return short in MEASURE_MODULES + ("matrix/cubemeasure.py", "stripe/cubemeasure.py", "matrix/subtotals.py", "stripe/insertion.py", "cube.py") and any(w in tag for w in WORDS[prop])
     if prop == "C01":
         return short in ("cube.py", "matrix/cubemeasure.py", "stripe/cubemeasure.py") and "unconditional" not in tag
